@@ -52,7 +52,7 @@ def main():
                         print(value)
                 except CklRuntimeError as e:
                     print(str(e.value.asString().value)
-                          + ": " + e.msg
+                          + ": " + str(e.msg)
                           + " (Line " + str(e.pos) + ")")
                     if e.stacktrace:
                         for st in e.stacktrace:
